@@ -302,6 +302,30 @@ func c10Specs(thorough bool) []*gen.ProgSpec {
 			}
 		})
 	}
+	// empty samples (size 0; a chunk may then hold no bytes at all): every size tuple over {0,1,2} with at least one zero,
+	// one sample per chunk and all samples in one chunk
+	for n := 2; n <= 4; n++ {
+		enum.Tuples(n, 3, func(t []int) {
+			zero := false
+			for _, x := range t {
+				zero = zero || x == 0
+			}
+			if !zero {
+				return
+			}
+			for ci, ch := range [][]int{ones(n), {n}, {1, n - 1}} {
+				durs := make([]int64, n)
+				for i := range durs {
+					durs[i] = int64(1 + i%2)
+				}
+				tr := mkTrack("video", 1000, n, ch, durs, ci, 1|1<<uint(n-1), true)
+				for i := range tr.T.StszSizes {
+					tr.T.StszSizes[i] = uint32(t[i])
+				}
+				specs = append(specs, &gen.ProgSpec{Tracks: []gen.ProgTrack{tr}, MdatFirst: ci == 1})
+			}
+		})
+	}
 	// large times: durations at the 32-bit edges (the decode time of a later sample in the same stts run exceeds 2^32
 	// ticks), three timescales; cropped at the boundary set of milliseconds around every sample start (see c10MSList)
 	bigVals := []int64{1 << 31, 0xffffffff, 1}
@@ -442,7 +466,7 @@ func runC10(c *vf.Ctx) {
 	} else {
 		c.SetBudget(4 * 60 * 1e9)
 	}
-	c.Rule = "generated progressive files: single video track with stss (all chunkings x every sync subset containing sample 1 x duration tuples over {1,2,3} x ctts/sdtp/co64/edts/mdat-first/64-bit-mdat-header variants), single audio / video track without stss (also with a track header duration of half the media duration and of zero), video+audio (all chunkings of both x every merge order of the chunks in mdat x sync subsets; audio timescale 1000 and 600) ; single video (with stss) / audio tracks of 3-4 samples with durations over {2^31, 2^32-1, 1} ticks at timescales 1000 / 90000 / 10^7 (decode times beyond 2^32 ticks inside one stts run); each file is cropped in-process by the tool's own cropMP4 (overlay-injected driver) at EVERY millisecond 1..total+2 (files longer than 5 s: at the boundary set of milliseconds around every sample start of every track, and 1, total+1, total+2). A case = (file, ms). Only successful crops are judged; tool errors/panics are tallied."
+	c.Rule = "generated progressive files: single video track with stss (all chunkings x every sync subset containing sample 1 x duration tuples over {1,2,3} x ctts/sdtp/co64/edts/mdat-first/64-bit-mdat-header variants), single audio / video track without stss (also with a track header duration of half the media duration and of zero), video+audio (all chunkings of both x every merge order of the chunks in mdat x sync subsets; audio timescale 1000 and 600) ; single video tracks with empty samples (every size tuple over {0,1,2} with a zero, three chunkings); single video (with stss) / audio tracks of 3-4 samples with durations over {2^31, 2^32-1, 1} ticks at timescales 1000 / 90000 / 10^7 (decode times beyond 2^32 ticks inside one stts run); each file is cropped in-process by the tool's own cropMP4 (overlay-injected driver) at EVERY millisecond 1..total+2 (files longer than 5 s: at the boundary set of milliseconds around every sample start of every track, and 1, total+1, total+2). A case = (file, ms). Only successful crops are judged; tool errors/panics are tallied."
 	c.Bound = "single track N <= 5 (quick) / 6 (thorough) samples; video+audio N <= 3 / 4 each, audio timescale 1000 and 600 (reference track always 1000)"
 	specs := c10Specs(thorough)
 	c.Set("files", len(specs))
